@@ -404,6 +404,10 @@ def scenarios(rng, quick):
             # empty file, only noise, byte-level fuzz
             for content in (b"", b"hello, world! ?? !! \xe2\x99\xa5", "가나다 ♥♡ .. …".encode(), b"\x00\x00", "혀".encode(), "혀엉".encode() * 3):
                 out.append({"sub": sub, "level": level, "fileKind": "ok", "file": list(content), "stdin": list(rng.choice(stdins)), "kind": "noise"})
+            # a file that stops in the middle of its last character (an incomplete, not an invalid, sequence)
+            whole3, whole4 = "형. 항.\n혀엉".encode(), "형. 항. 형.💕".encode()
+            for content in (b"\xed", b"\xf0\x9f", whole3[:-1], whole3[:-2], whole4[:-1], whole4[:-2], whole4[:-3]):
+                out.append({"sub": sub, "level": level, "fileKind": "ok", "file": list(content), "stdin": list(rng.choice(stdins)), "kind": "cut-file"})
             for _ in range(20 if quick else 400):
                 n = rng.randint(0, 40)
                 alphabet = ["형", "항", "핫", "흣", "흡", "흑", "혀", "하", "흐", "엉", "앙", "앗", "읏", "읍", "윽", ".", "…", "?", "!", "♥", "💕", "♡", " ", "\n", "x"]
